@@ -6,6 +6,7 @@ package gen
 import (
 	"encoding/hex"
 	"encoding/json"
+	"errors"
 	"fmt"
 	"math"
 	"reflect"
@@ -74,6 +75,9 @@ const (
 
 // named non-rune int32
 type NamedI32 int32
+
+// NamedStr is a named string type: not a string for a type switch, formatted by %v.
+type NamedStr string
 
 // SX has exported fields (JSON-encodable as a non-empty object).
 type SX struct {
@@ -216,6 +220,10 @@ func Materialise(it Item) *Live {
 		}
 	case "fmtr":
 		l.V = Fmtr(uint32(it.N))
+	case "nstr":
+		l.V = NamedStr(it.S)
+	case "stderr":
+		l.V = errors.New(string(it.S))
 	case "chan":
 		l.V = make(chan int)
 	case "tm":
@@ -283,7 +291,7 @@ func TextForm(it Item, live *Live) string {
 			return st.E
 		}
 		return fmt.Sprintf("%v", live.V)
-	case "sns":
+	case "sns", "stderr":
 		return string(it.S)
 	}
 	return fmt.Sprintf("%v", live.V)
